@@ -189,5 +189,7 @@ IStep(m, B, jt, ar, P, v) ==
       [] o = "throw"       -> Trap(EmitP(m1, Fire(P, "func_exit", -1)))
       \* the activation is left AT the tail call: the exit probe fires before the callee runs, once
       [] o = "rcall"       -> Return(Emit(EmitP(m1, Fire(P, "func_exit", -1)), [e |-> "op", k |-> c.k]), ar)
+      [] o = "rcalli"      -> IF Len(m1.vs) = 0 THEN Stuck(m1)
+                              ELSE Return(Emit(EmitP([m1 EXCEPT !.vs = Pop(@)], Fire(P, "func_exit", -1)), [e |-> "op", k |-> 3]), ar)
       [] OTHER -> Stuck(m1)
 =============================================================================
